@@ -10,15 +10,20 @@ class TaskAbort(BaseException):
 
 
 # (max threads, number of submitters, stop?, preemption bound quick, thorough)
-CONFIGS = [(1, 2, True), (2, 2, True), (1, 1, True)]
+CONFIGS = [(1, 2, True), (2, 2, True), (1, 1, True),
+           # the first attempt to start a pool thread fails ("can't start new thread"): the submitter sees the
+           # exception; what the same thread submits afterwards must be handled as usual
+           (1, 1, True, True), (2, 2, True, True)]
 
 
-def run_one(ch, maxthreads, nsub, with_stop):
+def run_one(ch, maxthreads, nsub, with_stop, failfirst=False):
     from twisted._threads import _pool, AlreadyQuit
     from twisted.python import threadpool
     s = Sched(ch, max_steps=600)
     bad = []
     pool_threads = []
+    start_failed = []
+    ntasks = nsub * (2 if failfirst else 1)
     live = {"n": 0, "max": 0}
 
     class CoopThread:
@@ -26,6 +31,11 @@ def run_one(ch, maxthreads, nsub, with_stop):
             self.target, self.name, self.t = target, name, None
 
         def start(self):
+            if failfirst and not start_failed:
+                start_failed.append(1)
+                s.point("thread.start-fails")
+                raise RuntimeError("can't start new thread")
+
             def body():
                 live["n"] += 1
                 live["max"] = max(live["max"], live["n"])
@@ -67,11 +77,19 @@ def run_one(ch, maxthreads, nsub, with_stop):
         tp.threadFactory = CoopThread
     finally:
         pass
-    rec = [{"runs": 0, "results": [], "submit": None, "returned_at": None} for _ in range(nsub)]
-    clock = {"stop_invoked_at": None, "stop_returned": False, "alive_at_stop_return": None}
+    rec = [{"runs": 0, "results": [], "submit": None, "returned_at": None} for _ in range(ntasks)]
+    clock = {"start_returned": False, "stop_invoked_at": None, "stop_returned": False, "alive_at_stop_return": None}
 
-    def submitter(i):
+    def submitter(j):
         def body():
+            if failfirst:
+                # submissions made before start() are only backlogged; here the failing creation has to
+                # happen inside the submitter's own call
+                s.wait(lambda: clock["start_returned"], "wait-for-start")
+            for i in ([j, j + nsub] if failfirst else [j]):
+                one(i)
+
+        def one(i):
             s.point("submit")
 
             def work():
@@ -90,11 +108,16 @@ def run_one(ch, maxthreads, nsub, with_stop):
                 rec[i]["submit"] = "AlreadyQuit"
             except AssertionError as e:
                 rec[i]["submit"] = "AssertionError"
+            except RuntimeError as e:
+                if not (failfirst and "can't start new thread" in str(e)):
+                    raise
+                rec[i]["submit"] = "creation-failed"
             rec[i]["returned_at"] = s.steps
         return body
 
     def main():
         tp.start()
+        clock["start_returned"] = True
         s.point("main-between-start-and-stop")
         if with_stop:
             clock["stop_invoked_at"] = s.steps
